@@ -205,27 +205,55 @@ def judge(module, traces, rundir, consts="", shard=2000, jobs=NCPU, timeout=3000
                 timeout=timeout, heap=heap)
         return r
 
-    res = {"V": [], "M": [], "N": {}, "judged": 0, "generated": 0, "distinct": 0, "wall_s": 0.0}
+    res = {"V": [], "M": [], "N": {}, "judged": 0, "generated": 0, "distinct": 0, "wall_s": 0.0, "E": []}
     t0 = time.time()
     with ThreadPoolExecutor(max_workers=jobs) as ex:
         results = list(ex.map(one, range(len(shards))))
-    for k, r in enumerate(results):
-        out = r["out"]
-        j = tlaval.find_tuples(out, "JUDGED")
-        if not r["completed"] or not j or j[-1][1] != len(shards[k]):
-            tail = "\n".join(out.splitlines()[-30:])
-            raise Machinery(f"trace judge {module} shard {k}: judged {j[-1][1] if j else '?'} of {len(shards[k])} "
-                            f"traces (rc={r['rc']})\n{tail}")
-        res["judged"] += j[-1][1]
-        res["generated"] += r["generated"]
-        res["distinct"] += r["distinct"]
+
+    def absorb(out, n):
+        res["judged"] += n
         for v in tlaval.find_tuples(out, "V"):
             res["V"].append(v)
         for v in tlaval.find_tuples(out, "M"):
             res["M"].append(v)
         for v in tlaval.find_tuples(out, "N"):
             res["N"][v[1]] = res["N"].get(v[1], 0) + v[2]
+
+    def ok(r, n):
+        j = tlaval.find_tuples(r["out"], "JUDGED")
+        return bool(r["completed"] and j and j[-1][1] == n)
+
+    def isolate(part, depth):
+        """a shard TLC could not evaluate: bisect it, judge what can be judged, collect the traces that cannot (res['E'])"""
+        f = rundir / f"{label}-iso{depth}-{part[0].get('tid', 0)}.json"
+        with open(f, "w") as fh:
+            json.dump(part if header is None else {"hdr": header, "traces": part}, fh, separators=(",", ":"))
+        r = tlc(module, cfg, rundir, name=f"{label}-iso{depth}-{part[0].get('tid', 0)}", workers=1, env={"TRACE_FILE": str(f), **(extra_env or {})},
+                timeout=timeout, heap=heap)
+        if ok(r, len(part)):
+            absorb(r["out"], len(part))
+        elif len(part) == 1:
+            res["E"].append({"tid": part[0].get("tid"), "tail": "\n".join(r["out"].splitlines()[-12:])})
+        else:
+            h = len(part) // 2
+            isolate(part[:h], depth + 1)
+            isolate(part[h:], depth + 1)
+
+    for k, r in enumerate(results):
+        if ok(r, len(shards[k])):
+            res["generated"] += r["generated"]
+            res["distinct"] += r["distinct"]
+            absorb(r["out"], len(shards[k]))
+        elif "Parsing or semantic analysis failed" in r["out"] or "configuration file" in r["out"] or len(shards[k]) > 20000:
+            tail = "\n".join(r["out"].splitlines()[-30:])
+            raise Machinery(f"trace judge {module} shard {k} failed (rc={r['rc']})\n{tail}")
+        else:
+            isolate(shards[k], 0)
     res["wall_s"] = round(time.time() - t0, 2)
+    if res["E"] and not res["V"]:
+        raise Machinery(f"trace judge {module}: TLC could not evaluate {len(res['E'])} trace(s), e.g. tid {res['E'][0]['tid']}:\n{res['E'][0]['tail']}")
+    for e in res["E"][:3]:
+        print(f"note: TLC could not evaluate trace {e['tid']} (other traces of this run were judged)", flush=True)
     return res
 
 
